@@ -97,9 +97,13 @@ def verify_function(reg, qualname, opts=None) -> FunctionReport:
             st.assume(st.ghost["stdout"][0] >= 0)
         for r in c.requires + c.defs:
             st.assume(spec_bool(eng, r, st))
+        from .values import RefSet
         for m in c.modifies:
-            v = eng.as_val(st, spec_value(eng, m, st))
-            eng.modifies_refs.append(get_ref(v.t))
+            v = spec_value(eng, m, st)
+            if isinstance(v, RefSet):
+                eng.modifies_refs.append(v)
+            else:
+                eng.modifies_refs.append(get_ref(eng.as_val(st, v).t))
         # smoke: the precondition must be satisfiable (vacuity guard, DESIGN 2.8)
         sm = smt.check_sat(st.pc, 3000)
         eng.obligations.append(_smoke(qualname, sm))
